@@ -49,6 +49,9 @@ def setup(resolution=0.01):
   kill_all()
   LOOP.reset(time_const(T0))
   del ERRORS[:]
+  # module-level shared state of scales that an aborted path may leave half-notified
+  import scales.asynchronous as am
+  c = am.AsyncResult(); c.set(); am._COMPLETE = c
   tqm.math = stubs.SymMath(); tqm.float = stubs.sym_float; tqm.int = stubs.sym_int
   q = tqm.TimerQueue(time_source=now, resolution=time_const(resolution) if resolution else 0)
   tqm.GLOBAL_TIMER_QUEUE = q
